@@ -27,7 +27,9 @@ adsr (ctor-adsr-duration), value-keyed memo of the array shared by all objects
 (after-other-array-release-node ...), `if not curves` in pairs
 (ctor-pairs-shape-number), `loop_level or None` in step
 (ctor-step-given-loop-node-encoded-absent), _env_at resuming from the last
-stage found (at-differs-when-evaluated-again)."""
+stage found (at-differs-when-evaluated-again), the times default assigned without
+wrap_extend (encode-length, encode-raises-IndexError, at-after-end ...;
+family env-defaults)."""
 
 import copy
 import itertools
@@ -64,11 +66,26 @@ def _dflt(v, default):
     return default if v == D else v
 
 
+EMPTY_TUPLE = '<empty tuple>'      # JSON stand-in for times=()
+DEFAULT_LEVELS = [0, 1, 0]         # Env.new(levels: [0, 1, 0], times: [1, 1],
+DEFAULT_TIMES = [1, 1]             #         curve: 'lin', nil, nil, 0)
+
+
+def times_defaulted(t):
+    """times omitted or None: the documented default [1, 1] (wrapped to the
+    segment count like any other list); an EMPTY list / tuple cannot be
+    wrapped: the default, or a refusal (exception), is accepted."""
+    return t == D or t is None or t == [] or t == EMPTY_TUPLE
+
+
 def expected_spec(case):
     if case['f'] == 'env':
-        # documented defaults: curves 'lin' ("linear segments (default)"),
-        # nodes absent, offset 0
-        return {'levels': case['levels'], 'times': case['times'],
+        # documented defaults: levels [0, 1, 0], times [1, 1], curves 'lin'
+        # ("linear segments (default)"), nodes absent, offset 0
+        lv, tm = case['levels'], case['times']
+        return {'levels': DEFAULT_LEVELS if lv == D or lv is None else lv,
+                'times': DEFAULT_TIMES if times_defaulted(tm) else tm,
+                'raise_ok': tm == [] or tm == EMPTY_TUPLE,
                 'curves': _dflt(case['curves'], 'lin'),
                 'rel': _dflt(case['rel'], None),
                 'loop': _dflt(case['loop'], None),
@@ -110,7 +127,7 @@ def env_given(c):
     given = {}
     for key, par in zip(ENV_KEYS, ENV_PARAMS):
         if key in c and c[key] != D:
-            given[par] = c[key]
+            given[par] = () if c[key] == EMPTY_TUPLE else c[key]
     return given
 
 
@@ -280,6 +297,8 @@ def _check_case(case):
             interp = env._interpolation_format()
         raw = env._envgen_format()
     except Exception as e:
+        if spec.get('raise_ok'):
+            return dis, {'refused': _exc(e)}
         dis.append((raise_kind(prefix, e, case), exp, _exc(e),
                     'constructing / encoding a valid specification raised'))
         return dis, {'raised': _exc(e)}
@@ -782,6 +801,9 @@ def is_nontrivial(case):
     if case['f'] == 'seq':
         return True                 # another envelope was encoded just before
     if case['f'] == 'env':
+        if case['levels'] == D or case['levels'] is None or \
+                times_defaulted(case['times']):
+            return True     # a documented default of levels / times applies
         n = len(case['levels']) - 1
         t, c = case['times'], _dflt(case['curves'], 'lin')
         wrapped = (isinstance(t, list) and len(t) < n) or \
@@ -973,6 +995,22 @@ def gen_points(p, shard, of):
                         yield case
 
 
+def gen_defaults(p, shard, of):
+    """Env.__init__ with every subset of its arguments left to the documented
+    default: full product of per-argument menus (D = omitted; None / [] / ()
+    = the explicit spellings of "default" for levels and times), both call
+    styles."""
+    keys = ['levels', 'times', 'curves', 'rel', 'loop', 'offset']
+    menus = [p['menus'][k] for k in keys]
+    for idx, combo in enumerate(itertools.product(*menus)):
+        if idx % of != shard:
+            continue
+        for style in p['styles']:
+            case = {'f': 'env', 'style': style}
+            case.update(zip(keys, copy.deepcopy(list(combo))))
+            yield case
+
+
 def derive_bases(p):
     bases = []
     for n in p['n']:
@@ -1035,7 +1073,8 @@ def gen_seq(p, shard, of):
 
 
 GENS = {'env': gen_env, 'ctor': gen_ctor_params, 'step': gen_step,
-        'points': gen_points, 'derive': gen_derive, 'seq': gen_seq}
+        'points': gen_points, 'derive': gen_derive, 'seq': gen_seq,
+        'defaults': gen_defaults}
 
 
 def families(tier):
@@ -1232,6 +1271,19 @@ def families(tier):
         'Cscalar': ['lin', -4], 'Clists': [['sin', 2]],
         'nodes': [[None, None], [1, 0]], 'offsets': [0.5, -0.5],
         'reuse': REUSE_MODES}, 8))
+    # 9b. every argument of Env.__init__ left to its documented default, one
+    #     at a time and in every combination; 2..6 levels with times
+    #     omitted / None / [] / () (default [1, 1] wrapped to 1..5 segments)
+    LA, LB = [0, 1, 0.5, 0, 2, 1], [0.25, 1, 0, 2, 0.5, 0]
+    fams.append(('env-defaults', 'defaults', {
+        'menus': {
+            'levels': [D, None] + [x[:k] for k in range(2, 7)
+                                   for x in (LA, LB)],
+            'times': [D, None, [], EMPTY_TUPLE, 0.5, [0.5, 2]],
+            'curves': [D, 'sin', [-4]],
+            'rel': [D, None, 1], 'loop': [D, None, 0],
+            'offset': [D, 0.5] if q else [D, 0, 0.5]},
+        'styles': ['pos', 'kw']}, 16))
     # 10. zero / negative constructor parameters (instant attack, silent
     #     peak, inverted envelope) with the shapes that are sensitive to a
     #     zero-length segment
@@ -1414,7 +1466,11 @@ def main(ctx):
         'array is also read through _as_control_input / _embed_as_osc_arg '
         '(synth argument route); constructor calls are repeated with their '
         'leading arguments positional (documented order); Env(...) also '
-        'with omitted arguments and by keyword; the grid is evaluated '
+        'with omitted arguments and by keyword (family env-defaults: every '
+        'subset of the arguments of Env.__init__ left to the documented '
+        'default - levels [0, 1, 0], times [1, 1] wrapped to 1..5 segments, '
+        'curves lin, no nodes, offset 0 - with levels / times also given '
+        'as None, times as [] / ()); the grid is evaluated '
         'forwards and then backwards. Further families: durations that are '
         'not dyadic (0.1 0.2 0.3 0.7), negative levels, curvatures -20 / '
         '0.5 / 8.5, the offset argument, zero and negative constructor '
@@ -1445,7 +1501,8 @@ def main(ctx):
         'curverange / the duration setter compute (only that the resulting '
         'object encodes and evaluates as its own attributes say); a level '
         'index given to Env.step only has to be encoded as a number other '
-        'than -99',
+        'than -99; an EMPTY times list / tuple: the default [1, 1] '
+        'wrapped, or a refusal (exception)',
         'multichannel envelopes, UGen-valued levels, IEnvGen format and '
         'circle/cyclic are outside the statement and not enumerated']
     ctx.bounds['time_grid'] = 'multiples of 0.125 in [-0.5, total+1] + breakpoints'
